@@ -110,3 +110,58 @@ def DB.snapshot (db : DB) (batchID : Bytes) : Res Snapshot :=
   | some b => readSnapshot db.orders b
 
 end Pool.C10
+
+namespace Pool.C10
+
+/-! ### multi-object transactions (`StorePendingBatch`, `MarkBatchComplete`, `UpdateOrders`)
+
+One bbolt transaction that writes several objects is the sequence of its `Put`s. (Go-level aliasing of the value
+slices handed to `Put` – which bbolt references until commit – has no counterpart in a value-semantics model; it
+is covered by the real-database batch scenarios of the harness.) -/
+
+/-- several `storeAccount` calls in one transaction (`applyBatchUpdates`' account loop) -/
+def DB.addAccounts (db : DB) : List Account → Option DB
+  | [] => some db
+  | a :: as =>
+    match db.addAccount a with
+    | some db' => db'.addAccounts as
+    | none => none
+
+/-- several order write-backs in one transaction (`UpdateOrders`, the order loop of `StorePendingBatch`) -/
+def DB.putOrders (db : DB) : List Order → DB
+  | [] => db
+  | o :: os => (db.putOrder o).putOrders os
+
+/-- `copyOrder(src, dst, nonce)` of `applyBatchUpdates` on bucket values: the raw `order` bytes are copied; the
+order is decoded (base + additional data) only to re-serialise its TLV stream and to know whether it is a bid;
+node tier and min units match are copied from the extra data read by `fetchOrderTX`. `dstTier` = the `order-tier`
+value already present in the destination bucket (kept for asks, since only bids write that key). -/
+def copyOrderRec (nonce : Bytes) (src : OrderRec) (dstTier : Option Bytes) : Res OrderRec :=
+  match src.base with
+  | none => .err
+  | some orderBytes =>
+    match (match src.tier with
+           | some b => readU32 b
+           | none => .ok 0 []) with
+    | .ok tier _ =>
+      match (match src.minUnits with
+             | some b => readU64 b
+             | none => .ok 1 []) with
+      | .ok minUnits _ =>
+        match deserializeOrder nonce orderBytes with
+        | .ok o _ =>
+          match deserializeOrderTlvData (src.tlv.getD []) o with
+          | .ok o _ =>
+            .ok { base := some orderBytes, minUnits := some (encU64 minUnits),
+                  tlv := some (serializeOrderTlvData o),
+                  tier := if o.isBid then some (encU32 tier) else dstTier } []
+          | .err => .err
+          | .panic => .panic
+        | .err => .err
+        | .panic => .panic
+      | .err => .err
+      | .panic => .panic
+    | .err => .err
+    | .panic => .panic
+
+end Pool.C10
